@@ -402,6 +402,14 @@ def s_fit(draw):
             pts.append([W * (i + jx) / side, H * (j + jy) / side])
         centroid = False
     coeffs, fam, klass = draw(affines(family="exact"))
+    tweak = draw(st.sampled_from(["none", "none", "shift", "scale", "both"]))
+    if tweak in ("shift", "both"):
+        # exactly representable, but a hair off a whole number (a fit that "cleans up" its answer is no longer exact)
+        coeffs[2] = float(round(coeffs[2])) + 2.0**-12
+        coeffs[5] = float(round(coeffs[5])) - 2.0**-12
+    if tweak in ("scale", "both"):
+        coeffs[0] *= 1 + 2.0**-21
+        coeffs[4] *= 1 - 2.0**-21
     degree = draw(st.sampled_from(["affine", "affine", "bilinear", "biquadratic"]))
     q = [draw(st.sampled_from([0.0, 0.5, -0.25, 1.0])) for _ in range(6)]
     probes = [[draw(st.integers(0, 16)) / 16, draw(st.integers(0, 16)) / 16] for _ in range(4)]
